@@ -506,6 +506,9 @@ func ToRune(source []byte, pos int) rune {
 			break
 		}
 	}
+	if i < 0 {
+		return utf8.RuneError
+	}
 	r, _ := utf8.DecodeRune(source[i:])
 	return r
 }
